@@ -80,7 +80,7 @@ Definition multi_post (m : mode) (maxdiff : Z) (rows1 rows2raw : list row) : res
   match m with
   | Separate => Ok (mkOut f1 (Some f2) None)
   | _ =>
-    do js <- results_resolve (f1 ++ f2) maxdiff;
+    do js <- results_resolve (f1 ++ filter (fun w => negb (row_in w f1)) f2) maxdiff;     (* repair F12, as in Coordinator.multi_execute *)
     let joined := fst js in let sep := snd js in
     match m with
     | Best => let jids := map qid joined in
